@@ -88,6 +88,8 @@ def render_strings(k, it: Item, meta, cfg, extra_derives=(), strum_path="strum")
         if std not in dl:
             dl.append(std)
     bounds = meta.get("bounds", "Default + Clone + PartialEq + core::fmt::Debug" if it.tparams else "")
+    if getattr(it, "decl_bounds", None) is not None:
+        bounds = it.decl_bounds        # (G.bound_free_items: the declaration carries NO bound and the enum is instantiated with NoDef)
     if meta.get("shadow_prelude"):
         # the enum lives in a module whose glob import of its own variants (named Ok / Err / Some / None) SHADOWS the prelude:
         # generated code that says `Ok(..)` instead of `::core::result::Result::Ok(..)` stops compiling there
